@@ -19,6 +19,7 @@ func Harness_C17_worker_two_holders() {
 		if holders > 0 {
 			stopWhileHeld = true
 		}
+		verifYield() // the instance may take arbitrarily long to exit after it was told to stop
 		running--
 	}
 	for i := 0; i < 2; i++ {
